@@ -34,8 +34,13 @@ def interesting_starts(rng, n, hi_frac=(70, 20, 8, 2)):
             else:
                 v = rng.below(10 ** rng.between(1, 7))
         elif r < hi_frac[0] + hi_frac[1]:
-            kind = rng.below(4)
-            if kind == 0:
+            kind = rng.below(5)
+            if kind == 4:
+                # layer thresholds of the sieve: the internal stop of the iterator's generator crosses T^4 (SievingPrimes builds its
+                # tiny sieve iff 165^2 <= isqrt(stop)) or the EratSmall / EratMedium limits
+                t = rng.choice([165, 165, 167, 169])
+                v = t ** 4 + rng.between(-50000, 50000)
+            elif kind == 0:
                 v = (1 << 32) + rng.between(-3000, 3000)
             elif kind == 1:
                 p = rng.choice([65521, 65537, 46337, 46349, 99991, 1000003])
